@@ -309,7 +309,7 @@ def subcircuit_cases(draw, tier):
     nl = draw(gen.netlists(min_inputs=1, max_inputs=5, min_gates=2, max_gates=18 if tier == 'thorough' else 14,
                            max_arity=3, styles=('plain', 'mixed'), min_outputs=1, max_outputs=4))
     fault = draw(st.sampled_from(['none', 'none', 'none', 'unlisted_fanout', 'unlisted_fanout', 'non_input_mapped',
-                                  'missing_input', 'label_collision', 'overlap_keys', 'unread_unmapped_input']))
+                                  'missing_input', 'label_collision', 'overlap_keys', 'unread_unmapped_input', 'downstream_input']))
     grow = [draw(st.integers(0, 40)) for _ in range(draw(st.integers(0, 6)))]
     if fault == 'unlisted_fanout' and draw(st.booleans()):
         # a cut point that reads an interior gate of the cone (non-convex cut) next to an unlisted fan-out
@@ -321,6 +321,7 @@ def subcircuit_cases(draw, tier):
             'label_mode': draw(st.sampled_from(['fresh', 'fresh', 'same_boundary'])),
             'fault': fault,
             'reuse_victim_label': draw(st.booleans()),
+            'unmark': draw(st.sampled_from([0, 0, 0, 1, 2])),
             # the replacement is a circuit like any other: parsed from text with forward references, renamed, ...
             'sub_route': draw(gen.free_routes()),
             'uuid_seed': draw(st.integers(0, 2 ** 20))}
@@ -397,6 +398,29 @@ def plan_replacement(nl, roots_idx, grow_idx, form, label_mode, prefix='rs_'):
             'boundary_depends_on_cone': downstream}
 
 
+def with_downstream_input(nl, S, I, need_out, rep, inputs_mapping, outputs_mapping):
+    """The replacement additionally reads (without changing its function) a gate that itself depends on one of the
+    replaced gates: a syntactic cycle, to be refused wherever it lies - also in dead logic, also when the mapped output
+    is not marked as an output of the replacement. Updates the two mappings in place; returns the new replacement
+    netlist or None when the cone has no such user."""
+    users_of = collections.defaultdict(list)
+    for l2, _, o2 in nl['gates']:
+        for o in o2:
+            users_of[o].append(l2)
+    cand = [(v, u) for v in need_out if v in outputs_mapping for u in users_of[v] if u not in S and u not in I]
+    if not cand:
+        return None
+    v, u = cand[0]
+    old_o = outputs_mapping[v]
+    new_rep = {'inputs': list(rep['inputs']) + ['rs_dn'],
+               'gates': [['rs_dn', 'INPUT', []]] + [list(g) for g in rep['gates']]
+               + [['rs_dn_n', 'NOT', ['rs_dn']], ['rs_dn_z', 'AND', ['rs_dn', 'rs_dn_n']], ['rs_dn_o', 'OR', [old_o, 'rs_dn_z']]],
+               'outputs': [('rs_dn_o' if o == old_o else o) for o in rep['outputs']]}
+    outputs_mapping[v] = 'rs_dn_o'
+    inputs_mapping[u] = 'rs_dn'
+    return new_rep
+
+
 def _benchable(label: str) -> bool:
     return bool(label) and all(ch.isalnum() or ch in '_' for ch in label) and not label.upper().startswith(('INPUT', 'OUTPUT'))
 
@@ -459,6 +483,11 @@ def check_subcircuit(case):
         rep = {'inputs': list(rep['inputs']) + [extra], 'gates': [[extra, 'INPUT', []]] + [list(g) for g in rep['gates']],
                'outputs': rep['outputs']}
         applied = fault
+    elif fault == 'downstream_input':
+        got = with_downstream_input(nl, S, I, need_out, rep, inputs_mapping, outputs_mapping)
+        if got is not None:
+            rep = got
+            applied = fault
     elif fault == 'overlap_keys' and I and need_out:
         inputs_mapping[need_out[0]] = rep['inputs'][0]
         applied = fault
@@ -469,6 +498,9 @@ def check_subcircuit(case):
     if sub_route and sub_route['kind'] == 'bench' and not all(_benchable(g[0]) for g in rep['gates']):
         sub_route = {'kind': 'rename', 'moves': sub_route.get('keys', [1, 2])}
     sub = build.build(sub_nl, sub_route)
+    if case.get('unmark') and len(rep['outputs']) >= 1:
+        # outputs_mapping may name gates the replacement does not mark as its outputs (only existence is required)
+        sub.set_outputs(list(rep['outputs'][:case['unmark'] - 1]))
     t_before = refsem.out_tables(nl)
     n_in, n_out = len(nl['inputs']), len(nl['outputs'])
     with UuidStream(case['uuid_seed']):
